@@ -128,6 +128,10 @@ def c06(tier):
     s = run.seed
     defs = F.curated_ctx() + F.curated() + F.random_family(2300 + s, sizes(tier, 120, 1200), nmax=sizes(tier, 4, 5), publish=True)
     run.add_mc(F.curated_ctx() + F.random_family(3300 + s, sizes(tier, 30, 300), nmax=4, publish=True), ["C06"], replay=True)
+    # the intended design (open findings S1 and S2 repaired in the model, no known signatures): the context clauses
+    # must hold outright there - they are jointly satisfiable and not an artefact of the code's bookkeeping
+    run.add_mc(F.curated_ctx() + F.random_family(3300 + s, sizes(tier, 30, 300), nmax=4, publish=True), ["C06", "C01"],
+               known=[], replay=False, intended=True)
     run.add_jobs(jobs_for(defs, {"max_nodes": sizes(tier, 1500, 8000)}, s, ("yaql", "jinja"), tok="visit"))
     run.add_jobs(jobs_for(F.curated_ctx(), {"lazy": True, "max_nodes": sizes(tier, 1500, 8000)}, s, tok="visit"))
     return run.finish("model_checking",
@@ -268,6 +272,10 @@ def c05(tier):
              if d["name"] in ("retry_join1", "retry_split", "retry_cmd", "items_join1_target", "items_join1_then_fail",
                               "items_join1_late_pub", "join1_two_roots", "join_partial")]
     run.add_jobs(jobs_for(focus, {"lazy": True, "max_nodes": sizes(tier, 1500, 6000)}, s))
+    # ... and the shapes whose outcome depends on what was recorded when (late output, publishes, faults): every
+    # history of the eager provider
+    focus2 = F.curated_ctx() + [d for d in F.fault_family(("undef",)) if d["fault"]["pos"] in ("vars", "output", "publish", "when")]
+    run.add_jobs(jobs_for(focus2, {"max_nodes": sizes(tier, 1500, 6000)}, s))
     gs2, errors2 = G.persist_groups(run.results[n0:], sizes(tier, 1000, 5000), random.Random(s + 1), subsets=0, lean=True)
     run.extra["persist_job_errors"] = errors + errors2
     run.add_groups(gs + gs2)
